@@ -573,10 +573,23 @@ def run_verus(path, multiple_errors=20, rlimit=None, extra=None, timeout=900):
     if extra:
         cmd += extra
     t0 = time.time()
+    # own process group: on timeout the whole tree (verus -> rust_verify -> z3) is killed, nothing is left running
+    import signal
+    p = subprocess.Popen(cmd, stdout=subprocess.PIPE, stderr=subprocess.PIPE, text=True, cwd=os.path.dirname(path), start_new_session=True)
     try:
-        r = subprocess.run(cmd, capture_output=True, text=True, timeout=timeout, cwd=os.path.dirname(path))
+        so, se = p.communicate(timeout=timeout)
     except subprocess.TimeoutExpired:
+        try:
+            os.killpg(p.pid, signal.SIGKILL)
+        except ProcessLookupError:
+            pass
+        p.communicate()
         raise Undecided("verus timed out after %ds on %s" % (timeout, path))
+
+    class _R:
+        pass
+    r = _R()
+    r.stdout, r.stderr, r.returncode = so, se, p.returncode
     wall = time.time() - t0
     try:
         out = json.loads(r.stdout)
